@@ -329,7 +329,20 @@ func (c *checkSchema) collectAllowedJsonTypes(node schema.Node, ss map[string]sc
 	typesConstraint := node.Constraint(constraint.TypesListConstraintType)
 
 	if typesConstraint == nil {
-		c.allowedJsonTypes[node.Type()] = struct{}{}
+		// The JSON type of the example is only one of the types the node
+		// accepts when the node is of type "any" or "enum".
+		switch enum, _ := node.Constraint(constraint.EnumConstraintType).(*constraint.Enum); {
+		case node.Constraint(constraint.AnyConstraintType) != nil:
+			for _, t := range json.AllTypes {
+				c.allowedJsonTypes[t] = struct{}{}
+			}
+		case enum != nil:
+			for _, t := range enum.JsonTypes() {
+				c.allowedJsonTypes[t] = struct{}{}
+			}
+		default:
+			c.allowedJsonTypes[node.Type()] = struct{}{}
+		}
 		return
 	}
 
@@ -338,7 +351,12 @@ func (c *checkSchema) collectAllowedJsonTypes(node schema.Node, ss map[string]sc
 			panic(errors.Format(errors.ErrImpossibleToDetermineTheJsonTypeDueToRecursion, typeName))
 		}
 		c.foundTypeNames[typeName] = struct{}{}
-		c.collectAllowedJsonTypes(getType(typeName, c.rootSchema, ss).RootNode(), ss) // can panic
+		typeRootNode := getType(typeName, c.rootSchema, ss).RootNode() // can panic
+		c.collectAllowedJsonTypes(typeRootNode, ss)
+		// A nullable type accepts null, whatever its example is.
+		if n, ok := typeRootNode.Constraint(constraint.NullableConstraintType).(*constraint.Nullable); ok && n.Bool() {
+			c.allowedJsonTypes[json.TypeNull] = struct{}{}
+		}
 		// Only the types being expanded count: the same type reached again
 		// through another branch is not a recursion.
 		delete(c.foundTypeNames, typeName)
